@@ -243,7 +243,7 @@ func (d *defaultValidator) validateDefaultValueSchemaAgainstSchema(path, in stri
 	res := pools.poolOfResults.BorrowResult()
 	s := d.SpecValidator
 
-	if schema.Default != nil {
+	if schema.Default != nil && s.canJudge(schema) {
 		// building the validator expands a $ref schema in place, which replaces its Default: read the value first
 		value := schema.Default
 		res.Merge(
